@@ -799,9 +799,16 @@ func c01WritePath(c *Ctx, p *Prog) {
 // ---- R5/R6 -----------------------------------------------------------------------
 
 func c01Remainder(c *Ctx, p *Prog) {
-	ch := p.Func("transports/obfs4:(*obfs4Conn).clientHandshake")
-	rp := p.Func("transports/obfs4:(*obfs4Conn).readPackets")
-	ob := c.Obl("R5", "transports/obfs4:(*obfs4Conn).clientHandshake#remainder-kept", "after the server response was parsed the client drops exactly the n bytes the parser consumed (receiveBuffer.Next(n), n the parser's count under err==nil) and never resets or truncates the buffer")
+	remainderRules(c, p, "R5", "R6", "transports/obfs4:(*obfs4Conn).clientHandshake", "transports/obfs4:(*obfs4Conn).readPackets", tO4Conn, "transports/obfs4:(*obfs4Conn).serverHandshake")
+}
+
+// remainderRules: what follows the server's handshake response in the client's receive buffer is
+// kept (R5) and is decoded before the data phase blocks on the network again (R6).  Shared by the
+// obfs4 and the ScrambleSuit client, which are built alike.
+func remainderRules(c *Ctx, p *Prog, r5, r6, chKey, rpKey, tConn, shKey string) {
+	ch := p.Func(chKey)
+	rp := p.Func(rpKey)
+	ob := c.Obl(r5, chKey+"#remainder-kept", "after the server response was parsed the client drops exactly the n bytes the parser consumed (receiveBuffer.Next(n), n the parser's count under err==nil) and never resets or truncates the buffer")
 	if ch == nil || rp == nil {
 		ob.Undecide("clientHandshake/readPackets not found")
 		return
@@ -816,7 +823,7 @@ func c01Remainder(c *Ctx, p *Prog) {
 			return
 		}
 		r, m, args := recvOf(call)
-		if r == nil || !isFieldLoad(r, tO4Conn, "receiveBuffer") {
+		if r == nil || !isFieldLoad(r, tConn, "receiveBuffer") {
 			return
 		}
 		switch m {
@@ -842,7 +849,7 @@ func c01Remainder(c *Ctx, p *Prog) {
 	ob.HoldNT("Next(n) at %s", p.InstrPos(next))
 
 	// R6 drain-before-block
-	ob = c.Obl("R6", "transports/obfs4:(*obfs4Conn).readPackets#drain-before-block", "the data phase never blocks on the network while bytes left over from the handshake are undecoded: the blocking Read is skipped under a flag that the client handshake sets from receiveBuffer.Len() after Next(n), and the decode loop runs in either case")
+	ob = c.Obl(r6, rpKey+"#drain-before-block", "the data phase never blocks on the network while bytes left over from the handshake are undecoded: the blocking Read is skipped under a flag that the client handshake sets from receiveBuffer.Len() after Next(n), and the decode loop runs in either case")
 	cio := newConnIO(p)
 	var rd *ssa.Call
 	allInstrs(rp, func(in ssa.Instruction) {
@@ -858,7 +865,7 @@ func c01Remainder(c *Ctx, p *Prog) {
 	var flag FieldKey
 	found := false
 	for _, f := range rff.NC(rd.Block()) {
-		if k, _, ok := fieldLoad(f.Cond); ok && k.Type == tO4Conn && !f.Pol {
+		if k, _, ok := fieldLoad(f.Cond); ok && k.Type == tConn && !f.Pol {
 			flag, found = k, true
 		}
 	}
@@ -884,7 +891,7 @@ func c01Remainder(c *Ctx, p *Prog) {
 					op = token.GTR
 				}
 			}
-			if k, isK := intConst(y); isK && k == 0 && (op == token.GTR || op == token.NEQ) && isBufLenOf(p, x, tO4Conn, "receiveBuffer") {
+			if k, isK := intConst(y); isK && k == 0 && (op == token.GTR || op == token.NEQ) && isBufLenOf(p, x, tConn, "receiveBuffer") {
 				if lc, _ := callOf(unspill(x)); lc != nil && instrDominates(next, lc) {
 					okSet = true
 				}
@@ -892,7 +899,9 @@ func c01Remainder(c *Ctx, p *Prog) {
 		}
 		// the store must be on the success path
 		for _, r := range ff.SuccessReturns() {
-			if !instrDominates(s.Instr, r) {
+			// (success returns that are not reached through the response parser — a handshake form
+			// without a response — leave nothing behind)
+			if canReachWithout(next, r, nil) && !instrDominates(s.Instr, r) {
 				okSet = false
 			}
 		}
@@ -927,8 +936,19 @@ func c01Remainder(c *Ctx, p *Prog) {
 		ob.Violate("the pending flag is not cleared on every path that skips the read: the connection would never read from the network again")
 		return
 	}
-	// the decode loop is reached on both arms
-	decs := p.CallsIn(rp, idDecode)
+	// the decode loop is reached on both arms: the frame decoder call (obfs4) or, where packets are
+	// parsed in place (ScrambleSuit), the loop test on receiveBuffer.Len() behind the read
+	var decs []ssa.CallInstruction
+	decs = append(decs, p.CallsIn(rp, idDecode)...)
+	if len(decs) == 0 {
+		for _, lc := range p.CallsIn(rp, "(*bytes.Buffer).Len") {
+			if isFieldLoad(lc.Common().Args[0], tConn, "receiveBuffer") && blockOnCycle(lc.Block()) && lc.Block().Dominates(lc.Block()) {
+				if len(decs) == 0 || lc.Block().Dominates(decs[0].Block()) {
+					decs = []ssa.CallInstruction{lc}
+				}
+			}
+		}
+	}
 	if len(decs) != 1 || hasFact(rff.NC(decs[0].Block()), func(f Fact) bool { k2, _, ok := fieldLoad(f.Cond); return ok && k2 == flag }) {
 		ob.Violate("the decode loop does not run on both arms of the pending test")
 		return
@@ -936,13 +956,13 @@ func c01Remainder(c *Ctx, p *Prog) {
 	ob.HoldNT("Read guarded by !%s; set in clientHandshake from receiveBuffer.Len() after Next(n); cleared on the skipping arm; decode loop on both arms", flag.Field)
 
 	// server side: no leftover (buffer reset) — informational necessary condition
-	if sh := p.Func("transports/obfs4:(*obfs4Conn).serverHandshake"); sh != nil {
-		ob = c.Obl("R6", "transports/obfs4:(*obfs4Conn).serverHandshake#no-leftover", "the server either resets receiveBuffer after the client handshake (the client cannot send valid data before the response) or marks leftovers pending")
+	if sh := p.Func(shKey); shKey != "" && sh != nil {
+		ob = c.Obl(r6, shKey+"#no-leftover", "the server either resets receiveBuffer after the client handshake (the client cannot send valid data before the response) or marks leftovers pending")
 		okS := false
 		allInstrs(sh, func(in ssa.Instruction) {
 			if call, ok := in.(*ssa.Call); ok {
 				r, m, _ := recvOf(call)
-				if r != nil && isFieldLoad(r, tO4Conn, "receiveBuffer") && m == "Reset" {
+				if r != nil && isFieldLoad(r, tConn, "receiveBuffer") && m == "Reset" {
 					okS = true
 				}
 			}
